@@ -7,7 +7,9 @@
 // Catalogue (probed with small test compiles against this tree, g++ 12 -std=c++20):
 //   exist + checked here : variant(), variant(T&&) [exact alternative types, lvalue/rvalue; short->int for <int,char>],
 //                          variant(in_place_index<I>, v), variant(in_place_type<T>, v), copy/move ctor, copy/move assignment,
-//                          self copy-assignment, operator=(T&&), emplace<I>(v), emplace<T>(v), emplace<I>() [value-init],
+//                          self copy-assignment, operator=(T&&), v = get<index>(v), construction / assignment from types that
+//                          are no alternative (short, signed/unsigned char, bool, unscoped enum, char; only where std accepts
+//                          them too), emplace<I>(v), emplace<T>(v), emplace<I>() [value-init],
 //                          etl::swap / ADL swap (generic 3-move swap), index(), holds_alternative<T>, get_if<I>/get_if<T>
 //                          (const and non-const), unchecked_get<I> (&, const&, &&, const&&), operator[](index_v<I>) (same 4),
 //                          visit(f, v) (lvalue / const / rvalue), visit(f, v, w), visit(f, v, w, u), visit_with_index,
@@ -116,13 +118,13 @@ struct Log { // what a visitor saw
 
 enum Code : std::uint32_t {
     C_DEFAULT, C_CONV_L, C_CONV_R, C_INPLACE_INDEX, C_INPLACE_TYPE, C_COPY, C_MOVE, C_CONV_PROMOTE,
-    A_COPY, A_MOVE, A_SELF, A_CONV_L, A_CONV_R, EMPLACE_INDEX, EMPLACE_TYPE, EMPLACE_DEFAULT, SWAP_FREE, SWAP_SELF, WRITE_THROUGH,
+    A_COPY, A_MOVE, A_SELF, A_CONV_L, A_CONV_R, A_CONV_ALIAS, C_CONV_OTHER, A_CONV_OTHER, EMPLACE_INDEX, EMPLACE_TYPE, EMPLACE_DEFAULT, SWAP_FREE, SWAP_SELF, WRITE_THROUGH,
     Q_HOLDS, Q_GET_IF, Q_UNCHECKED_GET, Q_SUBSCRIPT, Q_VISIT1, Q_VISIT2, Q_VISIT2_Z, Q_VISIT3, Q_VISIT_INDEX, Q_REL, OBSERVE,
     NCODES
 };
 constexpr std::uint32_t FIRST_QUERY = Q_HOLDS;
 char const* const code_names[] = {"variant()", "variant(T const&)", "variant(T&&)", "variant(in_place_index<I>,v)", "variant(in_place_type<T>,v)", "variant(variant const&)", "variant(variant&&)",
-    "variant(short)", "copy-assign", "move-assign", "self copy-assign", "operator=(T const&)", "operator=(T&&)", "emplace<I>(v)", "emplace<T>(v)", "emplace<I>()", "swap(x,y)", "swap(x,x)",
+    "variant(short)", "copy-assign", "move-assign", "self copy-assign", "operator=(T const&)", "operator=(T&&)", "x = get<index>(x)", "variant(S) S not an alternative", "operator=(S) S not an alternative", "emplace<I>(v)", "emplace<T>(v)", "emplace<I>()", "swap(x,y)", "swap(x,x)",
     "write through accessor", "holds_alternative", "get_if", "unchecked_get", "operator[]", "visit(f,x)", "visit(f,x,y)", "visit(f,x,z)/(f,z,x)", "visit(f,x,y,z)", "visit_with_index", "relational",
     "observe"};
 
@@ -145,8 +147,18 @@ struct Cfg {
 
     struct M {
         MV v;
-        bool masked{false}; // value of the active alternative is unspecified (moved-from)
+        bool masked{false}; // value of the active alternative is unspecified (a moved-from NonTriv)
     };
+    // moving from a trivially copyable alternative cannot change it ([variant.ctor]/[variant.assign] move get<j>(rhs));
+    // only the value of a moved-from NonTriv is unspecified
+    static auto holds_nontriv(MV const& m) -> bool
+    {
+        if constexpr (has_tracked) {
+            return std::holds_alternative<Mt>(m);
+        } else {
+            return false;
+        }
+    }
     struct St {
         int count{0};
         std::size_t idx{0};
@@ -262,25 +274,33 @@ struct Cfg {
                     break;
                 }
                 case C_COPY: {
-                    sx.make(std::as_const(y));
+                    if ((op.b & 1U) != 0) {
+                        sx.make(y); // non-const lvalue: must not be captured by variant(T&&)
+                    } else {
+                        sx.make(std::as_const(y));
+                    }
                     mx = my;
                     break;
                 }
                 case C_MOVE: {
                     sx.make(std::move(y));
                     mx        = my;
-                    my.masked = true; // index of the source is specified (unchanged), its value is not
+                    my.masked = holds_nontriv(my.v); // index of the source is specified (unchanged), a NonTriv value is not
                     break;
                 }
                 case A_COPY: {
-                    x  = std::as_const(y);
+                    if ((op.b & 1U) != 0) {
+                        x = y; // non-const lvalue: must not be captured by operator=(T&&)
+                    } else {
+                        x = std::as_const(y);
+                    }
                     mx = my;
                     break;
                 }
                 case A_MOVE: {
                     x         = std::move(y);
                     mx        = my;
-                    my.masked = true;
+                    my.masked = holds_nontriv(my.v);
                     break;
                 }
                 case A_SELF: {
@@ -304,6 +324,44 @@ struct Cfg {
                         x       = A(v);
                         set_model(I, v);
                     });
+                    break;
+                }
+                case A_CONV_ALIAS: {
+                    // v = get<i>(v) with i == index(): [variant.assign] assigns the value to itself, the state is unchanged
+                    with_index<N>(mx.v.index(), [&](auto I) {
+                        constexpr auto i = decltype(I)::value;
+                        x                = std::as_const(etl::unchecked_get<i>(x));
+                        auto copy        = std::get<i>(mx.v);
+                        mx.v             = std::as_const(copy);
+                    });
+                    break;
+                }
+                case C_CONV_OTHER:
+                case A_CONV_OTHER: {
+                    // source types that are no alternative: the alternative is chosen by overload resolution; compared only
+                    // where both etl and std accept the type (std adds the P0608 narrowing rule)
+                    auto one = [&](auto s) {
+                        using S = decltype(s);
+                        if constexpr (std::is_constructible_v<EV, S> && std::is_constructible_v<MV, S> && std::is_assignable_v<EV&, S> && std::is_assignable_v<MV&, S>) {
+                            if (code == C_CONV_OTHER) {
+                                sx.make(S(s));
+                                mx.v = MV(S(s));
+                            } else {
+                                x    = S(s);
+                                mx.v = S(s);
+                            }
+                            mx.masked = false;
+                        }
+                    };
+                    enum Plain { plain_zero, plain_one, plain_two, plain_three }; // unscoped: promotes to int
+                    switch (op.a % 6) {
+                    case 0: one(static_cast<short>(v)); break;
+                    case 1: one(static_cast<signed char>(v)); break;
+                    case 2: one(static_cast<unsigned char>(v)); break;
+                    case 3: one(v != 0); break;
+                    case 4: one(static_cast<Plain>(v)); break;
+                    default: one(static_cast<char>(v)); break;
+                    }
                     break;
                 }
                 case EMPLACE_INDEX: {
@@ -443,6 +501,7 @@ struct Cfg {
                     default: re = etl::visit(fe, std::move(x)); break; // the visitor takes auto&&: nothing is moved
                     }
                     int rm = std::visit(fm, mx.v);
+                    if (etl::visit([] { return 41; }) != std::visit([] { return 41; })) { err = "visit(f) without variants did not call f"; }
                     if (mx.masked) { le.v[0] = lm.v[0] = 0; }
                     if (le.calls != 1 || le.idx != lm.idx || le.v != lm.v) {
                         err = "visit(f,x): visitor saw " + le.str() + ", std::visit " + lm.str();
@@ -609,17 +668,35 @@ struct Config {
     std::string (*run)(OpsCase const&, int);
     std::size_t nalt;
 };
+// One source, several executables: -DC07_ONLY=<i> builds only configuration i (the registry lists one harness per
+// configuration so that they compile in parallel); configuration ids in case strings are the same in every build.
+#if !defined(C07_ONLY) || C07_ONLY == 0
+    #define C07_RUN0 &Cfg<int, char>::run
+#else
+    #define C07_RUN0 nullptr
+#endif
+#if !defined(C07_ONLY) || C07_ONLY == 1
+    #define C07_RUN1 &Cfg<int, TCM, Small>::run
+#else
+    #define C07_RUN1 nullptr
+#endif
+#if !defined(C07_ONLY) || C07_ONLY == 2
+    #define C07_RUN2 &Cfg<TCM, int, char, Small>::run
+#else
+    #define C07_RUN2 nullptr
+#endif
 Config const configs[] = {
-    {"variant<int,char>", &Cfg<int, char>::run, 2},
-    {"variant<int,NonTriv,Small>", &Cfg<int, TCM, Small>::run, 3},
-    {"variant<NonTriv,int,char,Small>", &Cfg<TCM, int, char, Small>::run, 4},
+    {"variant<int,char>", C07_RUN0, 2},
+    {"variant<int,NonTriv,Small>", C07_RUN1, 3},
+    {"variant<NonTriv,int,char,Small>", C07_RUN2, 4},
 };
 constexpr std::uint32_t nconfigs = sizeof(configs) / sizeof(configs[0]);
 
 auto run_case(OpsCase const& k, int stats) -> std::string
 {
     auto const& cfg = configs[k.cfg % nconfigs];
-    auto d          = cfg.run(k, stats);
+    if (cfg.run == nullptr) { return ""; } // configuration not built into this executable
+    auto d = cfg.run(k, stats);
     return d.empty() ? d : std::string(cfg.name) + ": " + d;
 }
 
@@ -655,6 +732,10 @@ auto shapes(std::uint32_t code, std::size_t nalt, bool small) -> std::vector<Raw
     case EMPLACE_DEFAULT:
         for (std::uint32_t a = 0; a < nalt; ++a) { out.push_back(RawOp{code, a, 0, 0}); }
         break;
+    case C_CONV_OTHER:
+    case A_CONV_OTHER:
+        for (std::uint32_t a = 0; a < 6; ++a) { out.push_back(RawOp{code, a, 0, 1U << 1}); }
+        break;
     case C_CONV_PROMOTE:
         if (nalt == 2) {
             for (auto v : vals) { out.push_back(RawOp{code, 0, 0, v << 1}); }
@@ -665,7 +746,9 @@ auto shapes(std::uint32_t code, std::size_t nalt, bool small) -> std::vector<Raw
             for (auto v : vals) { out.push_back(RawOp{code, 0, b, v << 1}); }
         }
         break;
-    case SWAP_FREE: out.push_back(RawOp{code, 0, 0, 0}), out.push_back(RawOp{code, 0, 1, 0}); break;
+    case SWAP_FREE:
+    case C_COPY:
+    case A_COPY: out.push_back(RawOp{code, 0, 0, 0}), out.push_back(RawOp{code, 0, 1, 0}); break;
     case Q_VISIT1:
         for (std::uint32_t b = 0; b < 3; ++b) { out.push_back(RawOp{code, 0, b, 0}); }
         break;
@@ -688,6 +771,7 @@ void vf_run(vf::Ctx& c)
     {
         std::uint64_t n = 0;
         for (std::uint32_t ci = 0; ci < nconfigs; ++ci) {
+            if (configs[ci].run == nullptr) { continue; }
             auto nalt = configs[ci].nalt;
             std::vector<RawOp> ops, ops_small, queries;
             for (std::uint32_t code = 0; code < FIRST_QUERY; ++code) {
@@ -739,8 +823,9 @@ void vf_run(vf::Ctx& c)
         }
     }
     // E1: random histories of <= 25 ops, every configuration
-    int per_cfg = c.thorough() ? 3200 : 500; // per shard: x16 shards ~ 50k, x6 shards = 3k per type
+    int per_cfg = (c.thorough() ? 50000 : 3000) / std::max(1, c.nshards) + 1; // per type over all shards: quick 3k, thorough 50k
     for (std::uint32_t ci = 0; ci < nconfigs; ++ci) {
+        if (configs[ci].run == nullptr) { continue; }
         auto gen = rc::gen::map(vf::gen_history(1, NCODES, 25), [ci](OpsCase k) {
             k.cfg = ci;
             return k;
